@@ -53,6 +53,7 @@ type taintState struct {
 	org     map[ssa.Value]taintOrigin
 	cell    map[ssa.Value]taintKind // address roots: Alloc, Global, slice/pointer values
 	cellOrg map[ssa.Value]ssa.Value
+	inFuncs map[*ssa.Function]bool
 	field   map[string]taintKind // "pkg.Type.field"
 	fldOrg  map[string]ssa.Value
 	ret     map[*ssa.Function][]taintKind
@@ -209,6 +210,17 @@ func (ts *taintState) fnsOf(v ssa.Value) map[*ssa.Function]bool {
 	return ts.fnv[v]
 }
 
+// repoStruct: (the pointee of) t is a named struct type declared in the repository.
+func repoStruct(t types.Type) bool {
+	if p, ok := t.Underlying().(*types.Pointer); ok {
+		t = p.Elem()
+	}
+	if n, ok := t.(*types.Named); ok && n.Obj().Pkg() != nil {
+		return isRepoPath(n.Obj().Pkg().Path())
+	}
+	return true // unnamed structs: keep the type-keyed treatment
+}
+
 func fieldKey(structPtrOrVal types.Type, idx int) string {
 	t := structPtrOrVal
 	if p, ok := t.Underlying().(*types.Pointer); ok {
@@ -224,6 +236,12 @@ func (ts *taintState) root(addr ssa.Value, depth int) (ssa.Value, string) {
 	}
 	switch x := addr.(type) {
 	case *ssa.FieldAddr:
+		// a struct of a type declared outside the repository (net.UDPAddr, net.TCPAddr, ...) that is built locally
+		// is tracked per allocation site: one client address put into one net.UDPAddr must not taint every
+		// net.UDPAddr of the program (listeners, configuration)
+		if al, ok := x.X.(*ssa.Alloc); ok && !repoStruct(x.X.Type()) {
+			return al, ""
+		}
 		return nil, fieldKey(x.X.Type(), x.Field)
 	case *ssa.IndexAddr:
 		if _, isPtr := x.X.Type().Underlying().(*types.Pointer); isPtr {
@@ -385,11 +403,24 @@ func (ts *taintState) textOf(v ssa.Value) (taintKind, string) {
 	return k, why
 }
 
+// analysed: the body of f is part of the fixpoint (it is in the property's scope, or nested in a function that is).
+func (ts *taintState) analysed(f *ssa.Function) bool {
+	if ts.inFuncs == nil {
+		ts.inFuncs = map[*ssa.Function]bool{}
+		for _, g := range ts.funcs {
+			ts.inFuncs[g] = true
+		}
+	}
+	return ts.inFuncs[f]
+}
+
 func (ts *taintState) resolve(f *ssa.Function, cc *ssa.CallCommon) (targets []*ssa.Function, alsoExternal bool) {
 	if cal := cc.StaticCallee(); cal != nil {
-		if cal.Blocks != nil && isRepoPath(fnPkgPath(cal)) && !(ts.cfg.skipInter != nil && ts.cfg.skipInter(cal)) {
+		if cal.Blocks != nil && isRepoPath(fnPkgPath(cal)) && !(ts.cfg.skipInter != nil && ts.cfg.skipInter(cal)) && (ts.analysed(cal) || fnPkgPath(cal) != repoMod+"/proto") {
 			return []*ssa.Function{cal}, false
 		}
+		// the generated protobuf code is not analysed: its functions (the nil-safe getters above all) are external
+		// calls like any other - a tainted message taints what is read from it
 		return nil, true
 	}
 	if cc.IsInvoke() {
@@ -760,6 +791,9 @@ func (ts *taintState) step(f *ssa.Function) {
 						ts.fnRet[f][i] = m
 					}
 					k := ts.val[rv]
+					if al, ok := rv.(*ssa.Alloc); ok && !repoStruct(al.Type()) {
+						k |= ts.cell[al] & tText
+					}
 					if ts.ret[f][i]&k != k {
 						ts.ret[f][i] |= k
 						if ts.retOrg[f][i] == nil {
